@@ -7,17 +7,3 @@ Set Printing Width 100000000.
 Set Printing Depth 100000000.
 Fixpoint bs (l : list nat) : string := match l with [] => EmptyString | n :: r => String (Ascii.ascii_of_nat n) (bs r) end.
 Definition T_ (b : bool) : string := if b then "T" else "F".
-Definition t206 : pt := (mkPacket (mkPtok 37 "MetaData" 1 0 0) (Some (mkPtok 3 "}" 31 0 92)) [(DMeta (mkMetaDef (mkSpan (mkPtok 37 "MetaData" 1 0 0) (mkPtok 3 "}" 4 0 11)) (mkPtok 37 "MetaData" 1 0 0) (mkPtok 42 "Common" 1 9 1) (mkPtok 2 "{" 1 16 2) [(MIDecl (mkMetaDecl (mkSpan (mkPtok 26 "int32" 2 4 3) (mkPtok 40 "," 2 16 5)) (TyBasic (mkSpan (mkPtok 26 "int32" 2 4 3) (mkPtok 26 "int32" 2 4 3)) (mkBasicType (mkSpan (mkPtok 26 "int32" 2 4 3) (mkPtok 26 "int32" 2 4 3)) (mkPtok 26 "int32" 2 4 3))) (mkPtok 42 "Flags" 2 10 4) None (mkPtok 40 "," 2 16 5))); (MIDecl (mkMetaDecl (mkSpan (mkPtok 14 "zchar[" 3 4 6) (mkPtok 40 "," 3 23 10)) (TyFixed (mkSpan (mkPtok 14 "zchar[" 3 4 6) (mkPtok 13 "]" 3 13 8)) (mkFixedString (mkSpan (mkPtok 14 "zchar[" 3 4 6) (mkPtok 13 "]" 3 13 8)) (mkPtok 14 "zchar[" 3 4 6) (mkPtok 30 "3" 3 11 7) (mkPtok 13 "]" 3 13 8))) (mkPtok 42 "Account" 3 15 9) None (mkPtok 40 "," 3 23 10)))] (mkPtok 3 "}" 4 0 11))); (DPacket (mkPacketDef (mkSpan (mkPtok 35 "packet" 5 0 12) (mkPtok 3 "}" 7 0 19)) None (mkPtok 35 "packet" 5 0 12) (mkPtok 42 "Ack" 5 7 13) (mkPtok 2 "{" 5 11 14) [(mkFieldWithAttr (mkSpan (mkPtok 42 "Flags" 6 4 15) (mkPtok 40 "," 6 20 18)) [] (ObjectField (mkSpan (mkPtok 42 "Flags" 6 4 15) (mkPtok 40 "," 6 20 18)) None (mkPtok 42 "Flags" 6 4 15) (Some (mkPtok 42 "leaves" 6 10 16)) (Some (mkPtok 43 "``" 6 17 17)) (mkPtok 40 "," 6 20 18)))] (mkPtok 3 "}" 7 0 19))); (DPacket (mkPacketDef (mkSpan (mkPtok 35 "packet" 9 0 20) (mkPtok 3 "}" 18 0 52)) None (mkPtok 35 "packet" 9 0 20) (mkPtok 42 "Header" 9 7 21) (mkPtok 2 "{" 9 14 22) [(mkFieldWithAttr (mkSpan (mkPtok 42 "Ack" 10 4 23) (mkPtok 40 "," 11 7 26)) [] (ObjectField (mkSpan (mkPtok 42 "Ack" 10 4 23) (mkPtok 40 "," 11 7 26)) None (mkPtok 42 "Ack" 10 4 23) (Some (mkPtok 42 "sz" 10 8 24)) (Some (mkPtok 43 (string_of_bytes [96; 108; 105; 110; 101; 49; 10; 108; 105; 110; 101; 50; 96]%N) 10 11 25)) (mkPtok 40 "," 11 7 26))); (mkFieldWithAttr (mkSpan (mkPtok 15 "string" 12 4 27) (mkPtok 40 "," 12 20 30)) [] (MetaField (mkSpan (mkPtok 15 "string" 12 4 27) (mkPtok 40 "," 12 20 30)) None (mkMetaDecl (mkSpan (mkPtok 15 "string" 12 4 27) (mkPtok 40 "," 12 20 30)) (TyDynamic (mkSpan (mkPtok 15 "string" 12 4 27) (mkPtok 15 "string" 12 4 27)) (mkDynamicString (mkSpan (mkPtok 15 "string" 12 4 27) (mkPtok 15 "string" 12 4 27)) (mkPtok 15 "string" 12 4 27))) (mkPtok 42 "ts" 12 11 28) (Some (mkPtok 43 "`doc`" 12 14 29)) (mkPtok 40 "," 12 20 30)))); (mkFieldWithAttr (mkSpan (mkPtok 9 "@tag(" 13 4 31) (mkPtok 40 "," 14 15 36)) [(FATag (mkSpan (mkPtok 9 "@tag(" 13 4 31) (mkPtok 6 ")" 13 13 33)) (mkTagAttr (mkSpan (mkPtok 9 "@tag(" 13 4 31) (mkPtok 6 ")" 13 13 33)) (mkPtok 9 "@tag(" 13 4 31) (mkPtok 30 "35" 13 10 32) (mkPtok 6 ")" 13 13 33)))] (MetaField (mkSpan (mkPtok 19 "char" 14 4 34) (mkPtok 40 "," 14 15 36)) None (mkMetaDecl (mkSpan (mkPtok 19 "char" 14 4 34) (mkPtok 40 "," 14 15 36)) (TyBasic (mkSpan (mkPtok 19 "char" 14 4 34) (mkPtok 19 "char" 14 4 34)) (mkBasicType (mkSpan (mkPtok 19 "char" 14 4 34) (mkPtok 19 "char" 14 4 34)) (mkPtok 19 "char" 14 4 34))) (mkPtok 42 "venue" 14 9 35) None (mkPtok 40 "," 14 15 36)))); (mkFieldWithAttr (mkSpan (mkPtok 19 "char" 15 4 38) (mkPtok 40 "," 15 13 40)) [] (MetaField (mkSpan (mkPtok 19 "char" 15 4 38) (mkPtok 40 "," 15 13 40)) None (mkMetaDecl (mkSpan (mkPtok 19 "char" 15 4 38) (mkPtok 40 "," 15 13 40)) (TyBasic (mkSpan (mkPtok 19 "char" 15 4 38) (mkPtok 19 "char" 15 4 38)) (mkBasicType (mkSpan (mkPtok 19 "char" 15 4 38) (mkPtok 19 "char" 15 4 38)) (mkPtok 19 "char" 15 4 38))) (mkPtok 42 "qty" 15 9 39) None (mkPtok 40 "," 15 13 40)))); (mkFieldWithAttr (mkSpan (mkPtok 24 "int8" 16 4 41) (mkPtok 40 "," 16 21 44)) [] (MetaField (mkSpan (mkPtok 24 "int8" 16 4 41) (mkPtok 40 "," 16 21 44)) None (mkMetaDecl (mkSpan (mkPtok 24 "int8" 16 4 41) (mkPtok 40 "," 16 21 44)) (TyBasic (mkSpan (mkPtok 24 "int8" 16 4 41) (mkPtok 24 "int8" 16 4 41)) (mkBasicType (mkSpan (mkPtok 24 "int8" 16 4 41) (mkPtok 24 "int8" 16 4 41)) (mkPtok 24 "int8" 16 4 41))) (mkPtok 42 "msg_type" 16 9 42) (Some (mkPtok 43 "``" 16 18 43)) (mkPtok 40 "," 16 21 44)))); (mkFieldWithAttr (mkSpan (mkPtok 20 "u8" 17 4 45) (mkPtok 40 "," 17 44 51)) [] (CheckSumField (mkSpan (mkPtok 20 "u8" 17 4 45) (mkPtok 40 "," 17 44 51)) (mkChecksumFieldDecl (mkSpan (mkPtok 20 "u8" 17 4 45) (mkPtok 40 "," 17 44 51)) (Some (TyBasic (mkSpan (mkPtok 20 "u8" 17 4 45) (mkPtok 20 "u8" 17 4 45)) (mkBasicType (mkSpan (mkPtok 20 "u8" 17 4 45) (mkPtok 20 "u8" 17 4 45)) (mkPtok 20 "u8" 17 4 45)))) (mkPtok 42 "checksum" 17 7 46) (mkCalculatedFrom (mkSpan (mkPtok 5 "@calculatedFrom(" 17 16 47) (mkPtok 6 ")" 17 39 49)) (mkPtok 5 "@calculatedFrom(" 17 16 47) (mkPtok 31 """XOR""" 17 33 48) (mkPtok 6 ")" 17 39 49)) (Some (mkPtok 43 "``" 17 41 50)) (mkPtok 40 "," 17 44 51))))] (mkPtok 3 "}" 18 0 52))); (DPacket (mkPacketDef (mkSpan (mkPtok 34 "root" 20 0 54) (mkPtok 3 "}" 31 0 92)) (Some (mkPtok 34 "root" 20 0 54)) (mkPtok 35 "packet" 21 0 55) (mkPtok 42 "Party" 21 7 56) (mkPtok 2 "{" 21 13 57) [(mkFieldWithAttr (mkSpan (mkPtok 42 "Ack" 22 4 58) (mkPtok 40 "," 22 15 60)) [] (ObjectField (mkSpan (mkPtok 42 "Ack" 22 4 58) (mkPtok 40 "," 22 15 60)) None (mkPtok 42 "Ack" 22 4 58) (Some (mkPtok 42 "symbol" 22 8 59)) None (mkPtok 40 "," 22 15 60))); (mkFieldWithAttr (mkSpan (mkPtok 42 "Header" 23 4 61) (mkPtok 40 "," 23 14 63)) [] (ObjectField (mkSpan (mkPtok 42 "Header" 23 4 61) (mkPtok 40 "," 23 14 63)) None (mkPtok 42 "Header" 23 4 61) (Some (mkPtok 42 "ts" 23 11 62)) None (mkPtok 40 "," 23 14 63))); (mkFieldWithAttr (mkSpan (mkPtok 42 "Account" 24 4 64) (mkPtok 40 "," 24 12 65)) [] (ObjectField (mkSpan (mkPtok 42 "Account" 24 4 64) (mkPtok 40 "," 24 12 65)) None (mkPtok 42 "Account" 24 4 64) None None (mkPtok 40 "," 24 12 65))); (mkFieldWithAttr (mkSpan (mkPtok 12 "char[" 25 4 67) (mkPtok 40 "," 25 28 72)) [] (MetaField (mkSpan (mkPtok 12 "char[" 25 4 67) (mkPtok 40 "," 25 28 72)) None (mkMetaDecl (mkSpan (mkPtok 12 "char[" 25 4 67) (mkPtok 40 "," 25 28 72)) (TyFixed (mkSpan (mkPtok 12 "char[" 25 4 67) (mkPtok 13 "]" 25 12 69)) (mkFixedString (mkSpan (mkPtok 12 "char[" 25 4 67) (mkPtok 13 "]" 25 12 69)) (mkPtok 12 "char[" 25 4 67) (mkPtok 30 "2" 25 10 68) (mkPtok 13 "]" 25 12 69))) (mkPtok 42 "msg_type" 25 14 70) (Some (mkPtok 43 (string_of_bytes [96; 230; 182; 136; 230; 129; 175; 96]%N) 25 23 71)) (mkPtok 40 "," 25 28 72)))); (mkFieldWithAttr (mkSpan (mkPtok 38 "match" 26 4 73) (mkPtok 40 "," 30 6 91)) [] (MatchField (mkSpan (mkPtok 38 "match" 26 4 73) (mkPtok 40 "," 30 6 91)) (mkMatchFieldDecl (mkSpan (mkPtok 38 "match" 26 4 73) (mkPtok 3 "}" 30 4 90)) (mkPtok 38 "match" 26 4 73) (mkPtok 42 "msg_type" 26 10 74) (mkPtok 17 "as" 26 19 75) (mkPtok 42 "Payload" 26 22 76) (mkPtok 2 "{" 26 30 77) [(mkMatchPair (mkSpan (mkPtok 31 """F""" 27 8 78) (mkPtok 40 "," 27 18 81)) (MKString (mkPtok 31 """F""" 27 8 78)) (mkPtok 39 ":" 27 12 79) (mkPtok 42 "Ack" 27 14 80) (Some (mkPtok 40 "," 27 18 81))); (mkMatchPair (mkSpan (mkPtok 31 """D""" 28 8 82) (mkPtok 40 "," 28 21 85)) (MKString (mkPtok 31 """D""" 28 8 82)) (mkPtok 39 ":" 28 12 83) (mkPtok 42 "Header" 28 14 84) (Some (mkPtok 40 "," 28 21 85))); (mkMatchPair (mkSpan (mkPtok 31 """AE""" 29 8 86) (mkPtok 40 "," 29 19 89)) (MKString (mkPtok 31 """AE""" 29 8 86)) (mkPtok 39 ":" 29 13 87) (mkPtok 42 "Ack" 29 15 88) (Some (mkPtok 40 "," 29 19 89)))] (mkPtok 3 "}" 30 4 90)) (mkPtok 40 "," 30 6 91)))] (mkPtok 3 "}" 31 0 92)))]).
-Eval vm_compute in ("<<<W206_alias_short>>>" ++ sh_escaped (render (rw_alias_short t206)) "").
-Eval vm_compute in ("<<<W206_alias_long>>>" ++ sh_escaped (render (rw_alias_long t206)) "").
-Eval vm_compute in ("<<<W206_alias_long_opts>>>" ++ sh_escaped (render (rw_alias_long_opts t206)) "").
-Eval vm_compute in ("<<<W206_zchar>>>" ++ sh_escaped (render (rw_zchar t206)) "").
-Eval vm_compute in ("<<<W206_drop_default_pad>>>" ++ sh_escaped (render (rw_drop_default_pad t206)) "").
-Eval vm_compute in ("<<<W206_add_default_pad>>>" ++ sh_escaped (render (rw_add_default_pad t206)) "").
-Eval vm_compute in ("<<<W206_prefix_attr>>>" ++ sh_escaped (render (rw_prefix_attr t206)) "").
-Eval vm_compute in ("<<<W206_default_options>>>" ++ sh_escaped (render (rw_default_options t206)) "").
-Eval vm_compute in ("<<<W206_expand_keys>>>" ++ sh_escaped (render (rw_expand_keys t206)) "").
-Eval vm_compute in ("<<<W206_inline_meta>>>" ++ sh_escaped (render (rw_inline_meta t206)) "").
-Eval vm_compute in ("<<<W206_seps_all>>>" ++ sh_escaped (render (rw_seps_all t206)) "").
-Eval vm_compute in ("<<<W206_seps_none>>>" ++ sh_escaped (render (rw_seps_none t206)) "").
-Eval vm_compute in ("<<<W206_drop_docs>>>" ++ sh_escaped (render (rw_drop_docs t206)) "").
